@@ -8,11 +8,12 @@ S="/verif/seeded/$ID"; base_id="${ID%%-*}"
 lower=$(echo "$base_id" | tr 'A-Z' 'a-z')
 cd "$WT" || exit 2
 git checkout -q -- . ; git clean -fdq tests
-git apply "$S/patch.diff" || { echo "$ID: patch does not apply"; exit 2; }
+P="$S/patch.diff"; [ -f "$S/patch.rebased.diff" ] && P="$S/patch.rebased.diff"
+git apply "$P" || { echo "$ID: patch does not apply"; exit 2; }
 cp "$S"/demo_*.rs tests/
 base=$(cargo test --offline --no-fail-fast --lib --test encryption --test proofs --test serialization --test signatures 2>&1 | grep -E "^test result: ok" | awk '{s+=$4} END {print s+0}')
 demo_with=$(cargo test --offline --test demo_$lower 2>&1 | grep -E "^test result" | tail -1)
-git apply -R "$S/patch.diff"
+git apply -R "$P"
 demo_without=$(cargo test --offline --test demo_$lower 2>&1 | grep -E "^test result" | tail -1)
 git checkout -q -- . ; git clean -fdq tests
 echo "$ID baseline_passed_with_patch=$base | demo with patch: $demo_with | demo without patch: $demo_without"
